@@ -275,7 +275,9 @@ def run_C13(tier, seed, t0):
             if func == 'sepchars_amo':
                 continue      # five operands x two symbolic separator characters: CrossHair cannot even meet the precondition in 300 s
             ncond += 1
-            specs.append(('harness.xhair', 'xhair_task', ('C13', fn, to, [func, func + '__mustfail'])))
+            # the per-line conditions of lexer.py are a second engine beside harness/lexsym.py (which decides the same
+            # freedoms over longer symbolic text): a non-confirmation there is a note, not an inconclusive result
+            specs.append(('harness.xhair', 'xhair_task', ('C13', fn, to, [func, func + '__mustfail'], [func] if fn == 'lexer.py' else ())))
     for m in ('jalr', 'lb', 'lh', 'lw', 'lbu', 'lhu', 'sb', 'sh', 'sw', 'c.lw', 'c.sw'):
         for c in ((False, True) if not m.startswith('c.') else (False,)):
             specs.append(('harness.equiv', 'equiv_task', ('C13', m, w, 'imm(reg)', c)))
